@@ -100,10 +100,13 @@ def query_traversal(node, callback, is_table=False, is_target=False, parent_quer
         return res
 
     if isinstance(node, ast.Select):
-        if node.from_table is not None:
-            node_out = query_traversal(node.from_table, callback, is_table=True, parent_query=node)
-            if node_out is not None:
-                node.from_table = node_out
+        # clauses are visited in the order they are written
+        if node.cte is not None:
+            array = []
+            for cte in node.cte:
+                node_out = query_traversal(cte.query, callback, parent_query=node) or cte
+                array.append(node_out)
+            node.cte = array
 
         array = []
         for node2 in node.targets:
@@ -114,12 +117,10 @@ def query_traversal(node, callback, is_table=False, is_target=False, parent_quer
                 array.append(node_out)
         node.targets = array
 
-        if node.cte is not None:
-            array = []
-            for cte in node.cte:
-                node_out = query_traversal(cte.query, callback, parent_query=node) or cte
-                array.append(node_out)
-            node.cte = array
+        if node.from_table is not None:
+            node_out = query_traversal(node.from_table, callback, is_table=True, parent_query=node)
+            if node_out is not None:
+                node.from_table = node_out
 
         if node.where is not None:
             node_out = query_traversal(node.where, callback, parent_query=node)
@@ -154,12 +155,12 @@ def query_traversal(node, callback, is_table=False, is_target=False, parent_quer
             node.right = node_out
 
     elif isinstance(node, ast.Join):
-        node_out = query_traversal(node.right, callback, is_table=True, parent_query=parent_query)
-        if node_out is not None:
-            node.right = node_out
         node_out = query_traversal(node.left, callback, is_table=True, parent_query=parent_query)
         if node_out is not None:
             node.left = node_out
+        node_out = query_traversal(node.right, callback, is_table=True, parent_query=parent_query)
+        if node_out is not None:
+            node.right = node_out
         if node.condition is not None:
             node_out = query_traversal(node.condition, callback, parent_query=parent_query)
             if node_out is not None:
@@ -172,6 +173,11 @@ def query_traversal(node, callback, is_table=False, is_target=False, parent_quer
             node_out = query_traversal(arg, callback, parent_query=parent_query) or arg
             array.append(node_out)
         node.args = array
+
+        if isinstance(node, ast.Function) and node.from_arg is not None:
+            node_out = query_traversal(node.from_arg, callback, parent_query=parent_query)
+            if node_out is not None:
+                node.from_arg = node_out
 
     elif isinstance(node, ast.WindowFunction):
         query_traversal(node.function, callback, parent_query=parent_query)
@@ -227,11 +233,6 @@ def query_traversal(node, callback, is_table=False, is_target=False, parent_quer
             if node_out is not None:
                 node.table = node_out
 
-        if node.where is not None:
-            node_out = query_traversal(node.where, callback, parent_query=node)
-            if node_out is not None:
-                node.where = node_out
-
         if node.update_columns is not None:
             changes = {}
             for k, v in node.update_columns.items():
@@ -245,6 +246,11 @@ def query_traversal(node, callback, is_table=False, is_target=False, parent_quer
             node_out = query_traversal(node.from_select, callback, parent_query=node)
             if node_out is not None:
                 node.from_select = node_out
+
+        if node.where is not None:
+            node_out = query_traversal(node.where, callback, parent_query=node)
+            if node_out is not None:
+                node.where = node_out
 
     elif isinstance(node, ast.CreateTable):
         array = []
@@ -277,6 +283,11 @@ def query_traversal(node, callback, is_table=False, is_target=False, parent_quer
                 node.field = node_out
 
     elif isinstance(node, ast.Case):
+        if node.arg is not None:
+            node_out = query_traversal(node.arg, callback, parent_query=parent_query)
+            if node_out is not None:
+                node.arg = node_out
+
         rules = []
         for condition, result in node.rules:
             condition2 = query_traversal(condition, callback, parent_query=parent_query)
